@@ -40,3 +40,21 @@ func TestC11(t *testing.T) {
 		return c
 	})
 }
+
+func TestC16(t *testing.T) {
+	runProp(t, "C16", func(t *rapid.T) *core.Case {
+		return drawGeneral(t, gen.Profile{MaxDepth: 4}, gen.WindowOpts{}, gen.DataOpts{Specials: true, MaxSeries: 8, Histogram: true})
+	})
+}
+
+func TestC19(t *testing.T) {
+	runProp(t, "C19", func(t *rapid.T) *core.Case {
+		do := gen.DataOpts{Specials: true, MaxSeries: 10, Histogram: true}
+		if rapid.IntRange(0, 2).Draw(t, "extreme") == 0 {
+			do.Profile = "extreme"
+		}
+		c := drawGeneral(t, gen.Profile{MaxDepth: 4, Nameless: true}, gen.WindowOpts{}, do)
+		c.Fallback = rapid.IntRange(0, 5).Draw(t, "fallback") == 0
+		return c
+	})
+}
